@@ -499,14 +499,16 @@ func (r *chainRun) ask(step int, st chainStep) (servedSeq int, stale bool) {
 		}
 		return w
 	}
-	where := r.cc.where()
+	// finding keys: one per mechanism class (plain chain / around a lazy
+	// refresh); where the rewriters stand is part of the text
+	where, keySuffix := r.cc.where(), ""
 	if len(r.bgSeqFor) > 0 {
-		where += ".around-lazy-refresh"
+		keySuffix = ".around-lazy-refresh"
 	}
 	if len(resp.Question) != 1 || resp.Question[0].Name != q.Name || resp.Question[0].Qtype != q.Type || resp.Question[0].Qclass != q.Class {
 		r.findings = append(r.findings, chainFinding{
-			key:     "chain-foreign-question." + where,
-			what:    fmt.Sprintf("layout %s: client query %s (step %d, role %s) was served a response whose question section is %v", r.cc.Layout, q, step, r.cc.role(q), questionsText(resp)),
+			key:     "chain-foreign-question" + keySuffix,
+			what:    fmt.Sprintf("layout %s (%s): client query %s (step %d, role %s) was served a response whose question section is %v", r.cc.Layout, where, q, step, r.cc.role(q), questionsText(resp)),
 			witness: wit(r.sourceOf(resp)),
 		})
 		return -1, false
@@ -525,8 +527,8 @@ func (r *chainRun) ask(step int, st chainStep) (servedSeq int, stale bool) {
 	}
 	if call.Name != r.cc.upName(q) || call.Type != q.Type || call.Class != q.Class || call.Flags != q.flagsText() {
 		r.findings = append(r.findings, chainFinding{
-			key:     "chain-foreign-answer." + where,
-			what:    fmt.Sprintf("layout %s: client query %s (step %d, role %s) was served the upstream's answer to [%q type=%d class=%d flags=%s]; for this client question the upstream has to be asked %q with flags %s", r.cc.Layout, q, step, r.cc.role(q), call.Name, call.Type, call.Class, call.Flags, r.cc.upName(q), q.flagsText()),
+			key:     "chain-foreign-answer" + keySuffix,
+			what:    fmt.Sprintf("layout %s (%s): client query %s (step %d, role %s) was served the upstream's answer to [%q type=%d class=%d flags=%s]; for this client question the upstream has to be asked %q with flags %s", r.cc.Layout, where, q, step, r.cc.role(q), call.Name, call.Type, call.Class, call.Flags, r.cc.upName(q), q.flagsText()),
 			witness: wit(map[string]any{"answer_came_from_upstream_call": call}),
 		})
 		return -1, false
@@ -586,7 +588,7 @@ func chainMarkerOf(m *dns.Msg) (seq int, txt string, ttl uint32) {
 	return -1, "", 0
 }
 
-const chainWatchdog = 20 * time.Second
+const chainWatchdog = 10 * time.Second
 
 // advance executes the script from the current position. With stopAtWait it
 // returns true in front of a wait-stale step (to be continued later, so that
